@@ -109,7 +109,7 @@ theorem C11_formatter_calls (f : Frame) (fe : Frontend) (args : List Arg) (dyn :
     unfold cacheEvents
     induction growSteps fe.cache.cap (startCache fe.cache args).data.length (lensL args).length with
     | nil => rfl
-    | cons x xs ih => simpa [isFormat] using ih
+    | cons x xs ih => simp [isFormat, ih]
   have h3 : (((fe.queue.reserve (reserved f fe.cache args dyn)).1).filter isFormat).length = 0 := by
     unfold Queue.reserve
     split
